@@ -130,6 +130,9 @@ Proofs/HandoffProofs.vos Proofs/HandoffProofs.vok Proofs/HandoffProofs.required_
 Proofs/IncrProofs.vo Proofs/IncrProofs.glob Proofs/IncrProofs.v.beautified Proofs/IncrProofs.required_vo: Proofs/IncrProofs.v Base/Bytes.vo Base/Dec.vo Model/RespCodec.vo Model/Filter.vo Model/CmdFilter.vo Model/Checkpoint.vo Model/Incr.vo Proofs/RespProofs.vo
 Proofs/IncrProofs.vio: Proofs/IncrProofs.v Base/Bytes.vio Base/Dec.vio Model/RespCodec.vio Model/Filter.vio Model/CmdFilter.vio Model/Checkpoint.vio Model/Incr.vio Proofs/RespProofs.vio
 Proofs/IncrProofs.vos Proofs/IncrProofs.vok Proofs/IncrProofs.required_vos: Proofs/IncrProofs.v Base/Bytes.vos Base/Dec.vos Model/RespCodec.vos Model/Filter.vos Model/CmdFilter.vos Model/Checkpoint.vos Model/Incr.vos Proofs/RespProofs.vos
+Proofs/LzfSpec.vo Proofs/LzfSpec.glob Proofs/LzfSpec.v.beautified Proofs/LzfSpec.required_vo: Proofs/LzfSpec.v Base/Bytes.vo Model/Lzf.vo
+Proofs/LzfSpec.vio: Proofs/LzfSpec.v Base/Bytes.vio Model/Lzf.vio
+Proofs/LzfSpec.vos Proofs/LzfSpec.vok Proofs/LzfSpec.required_vos: Proofs/LzfSpec.v Base/Bytes.vos Model/Lzf.vos
 Proofs/PipeProofs.vo Proofs/PipeProofs.glob Proofs/PipeProofs.v.beautified Proofs/PipeProofs.required_vo: Proofs/PipeProofs.v Base/Bytes.vo Base/Table.vo Model/Backlog.vo Model/Pipe.vo Proofs/BacklogProofs.vo
 Proofs/PipeProofs.vio: Proofs/PipeProofs.v Base/Bytes.vio Base/Table.vio Model/Backlog.vio Model/Pipe.vio Proofs/BacklogProofs.vio
 Proofs/PipeProofs.vos Proofs/PipeProofs.vok Proofs/PipeProofs.required_vos: Proofs/PipeProofs.v Base/Bytes.vos Base/Table.vos Model/Backlog.vos Model/Pipe.vos Proofs/BacklogProofs.vos
@@ -172,9 +175,9 @@ Proofs/WorkersProofs.vos Proofs/WorkersProofs.vok Proofs/WorkersProofs.required_
 Proofs/WriterProofs.vo Proofs/WriterProofs.glob Proofs/WriterProofs.v.beautified Proofs/WriterProofs.required_vo: Proofs/WriterProofs.v Base/Bytes.vo Base/Endian.vo Base/Dec.vo Model/RespCodec.vo Spec/Crc64.vo Model/Digest.vo Model/Rdb.vo Model/Cupcake.vo Spec/RdbFormat.vo Spec/RdbRecords.vo Proofs/DigestProofs.vo Proofs/RdbProofs.vo Gen/Crc64.vo Proofs/CupcakeProofs.vo
 Proofs/WriterProofs.vio: Proofs/WriterProofs.v Base/Bytes.vio Base/Endian.vio Base/Dec.vio Model/RespCodec.vio Spec/Crc64.vio Model/Digest.vio Model/Rdb.vio Model/Cupcake.vio Spec/RdbFormat.vio Spec/RdbRecords.vio Proofs/DigestProofs.vio Proofs/RdbProofs.vio Gen/Crc64.vio Proofs/CupcakeProofs.vio
 Proofs/WriterProofs.vos Proofs/WriterProofs.vok Proofs/WriterProofs.required_vos: Proofs/WriterProofs.v Base/Bytes.vos Base/Endian.vos Base/Dec.vos Model/RespCodec.vos Spec/Crc64.vos Model/Digest.vos Model/Rdb.vos Model/Cupcake.vos Spec/RdbFormat.vos Spec/RdbRecords.vos Proofs/DigestProofs.vos Proofs/RdbProofs.vos Gen/Crc64.vos Proofs/CupcakeProofs.vos
-Props/C01.vo Props/C01.glob Props/C01.v.beautified Props/C01.required_vo: Props/C01.v Base/Bytes.vo Base/Endian.vo Spec/Crc64.vo Gen/Crc64.vo Gen/Rdb.vo Model/Digest.vo Model/Rdb.vo Spec/RdbFormat.vo Spec/RdbRecords.vo Proofs/RdbProofs.vo Proofs/DigestProofs.vo Proofs/SplitProofs.vo
-Props/C01.vio: Props/C01.v Base/Bytes.vio Base/Endian.vio Spec/Crc64.vio Gen/Crc64.vio Gen/Rdb.vio Model/Digest.vio Model/Rdb.vio Spec/RdbFormat.vio Spec/RdbRecords.vio Proofs/RdbProofs.vio Proofs/DigestProofs.vio Proofs/SplitProofs.vio
-Props/C01.vos Props/C01.vok Props/C01.required_vos: Props/C01.v Base/Bytes.vos Base/Endian.vos Spec/Crc64.vos Gen/Crc64.vos Gen/Rdb.vos Model/Digest.vos Model/Rdb.vos Spec/RdbFormat.vos Spec/RdbRecords.vos Proofs/RdbProofs.vos Proofs/DigestProofs.vos Proofs/SplitProofs.vos
+Props/C01.vo Props/C01.glob Props/C01.v.beautified Props/C01.required_vo: Props/C01.v Base/Bytes.vo Base/Endian.vo Spec/Crc64.vo Gen/Crc64.vo Gen/Rdb.vo Model/Digest.vo Model/Rdb.vo Spec/RdbFormat.vo Spec/RdbRecords.vo Proofs/RdbProofs.vo Proofs/DigestProofs.vo Proofs/SplitProofs.vo Model/Lzf.vo Proofs/LzfSpec.vo
+Props/C01.vio: Props/C01.v Base/Bytes.vio Base/Endian.vio Spec/Crc64.vio Gen/Crc64.vio Gen/Rdb.vio Model/Digest.vio Model/Rdb.vio Spec/RdbFormat.vio Spec/RdbRecords.vio Proofs/RdbProofs.vio Proofs/DigestProofs.vio Proofs/SplitProofs.vio Model/Lzf.vio Proofs/LzfSpec.vio
+Props/C01.vos Props/C01.vok Props/C01.required_vos: Props/C01.v Base/Bytes.vos Base/Endian.vos Spec/Crc64.vos Gen/Crc64.vos Gen/Rdb.vos Model/Digest.vos Model/Rdb.vos Spec/RdbFormat.vos Spec/RdbRecords.vos Proofs/RdbProofs.vos Proofs/DigestProofs.vos Proofs/SplitProofs.vos Model/Lzf.vos Proofs/LzfSpec.vos
 Props/C02.vo Props/C02.glob Props/C02.v.beautified Props/C02.required_vo: Props/C02.v Base/Bytes.vo Base/Endian.vo Model/Rdb.vo Model/Cupcake.vo Model/Restore.vo Proofs/RestoreProofs.vo
 Props/C02.vio: Props/C02.v Base/Bytes.vio Base/Endian.vio Model/Rdb.vio Model/Cupcake.vio Model/Restore.vio Proofs/RestoreProofs.vio
 Props/C02.vos Props/C02.vok Props/C02.required_vos: Props/C02.v Base/Bytes.vos Base/Endian.vos Model/Rdb.vos Model/Cupcake.vos Model/Restore.vos Proofs/RestoreProofs.vos
